@@ -170,6 +170,26 @@ def convert(iso, rp=None, rl=None, tu=None):
     return v
 
 
+ROUTES = ['to_dict -> constructor', 'to_json -> from_json', 'PointIsotherm.from_isotherm']
+
+
+def reimport(iso, route):
+    """the isotherm exported and re-imported with the implementation's own exporters / constructors (the subject of C05 / C06), in the units it is stored in NOW"""
+    import pygaps
+    import pygaps.parsing as pgp
+    if route == 'to_dict -> constructor':
+        return clone(iso)
+    if route == 'to_json -> from_json':
+        return pgp.isotherm_from_json(pgp.isotherm_to_json(iso))
+    data = pandas_frame(iso)
+    return pygaps.PointIsotherm.from_isotherm(iso, isotherm_data=data, pressure_key=iso.pressure_key, loading_key=iso.loading_key)
+
+
+def pandas_frame(iso):
+    cols = [iso.pressure_key, iso.loading_key] + (['branch'] if 'branch' in iso.data_raw.columns else [])
+    return iso.data_raw[cols].copy()
+
+
 def convert_in_place(v, rp=None, rl=None, tu=None):
     """the implementation's permanent conversions applied to the isotherm object itself (which may already have been analysed)"""
     if rp is not None:
@@ -420,6 +440,18 @@ def metamorphic(rep, tier, seed, isos):
         out.append((('absolute', 'bar'), ('volume_gas', 'cm3'), 'K'))
         return out
 
+    rnd_rt = random.Random(seed * 13 + 15)      # own stream: the variants above do not depend on it
+
+    def roundtrip_variants():
+        """converted (always with a temperature unit change in it: the exported temperature number must go with the exported unit label), THEN exported and
+        re-imported, then analysed: (pressure representation | None, loading representation | None, temperature unit, route)"""
+        out = [(('absolute', 'kPa'), ('mass', 'mg'), '°C', ROUTES[k % 3]) for k in (rnd_rt.randrange(3),)]
+        out.append((None, None, '°C', rnd_rt.choice(ROUTES)))
+        out.append((rnd_rt.choice(PREPS), rnd_rt.choice(LREPS), '°C', rnd_rt.choice(ROUTES)))
+        if tier != 'quick':
+            out += [(rnd_rt.choice(PREPS), rnd_rt.choice(LREPS), rnd_rt.choice(['K', '°C']), r) for r in ROUTES]
+        return out
+
     def reuse_variants():
         out = [(('absolute', 'kPa'), ('mass', 'mg'), '°C'), (None, rnd.choice(LREPS), None)]
         if tier != 'quick':
@@ -440,12 +472,23 @@ def metamorphic(rep, tier, seed, isos):
             if oc0 != 'Ok':
                 continue   # the routine does not apply to this isotherm (e.g. no linear region); nothing to compare
             henry = entry.startswith('initial_henry')
-            for rp, rl, tu in variants():
+            for rp, rl, tu, route in [v + (None,) for v in variants()] + roundtrip_variants():
                 var_iso = convert(iso0, rp, rl, tu)
+                if route is not None:
+                    try:
+                        var_iso = reimport(var_iso, route)
+                    except Exception as e:  # noqa
+                        rep.failure('C15:unclassified:%s:re-import-raises' % entry.split(':')[0], '%s converted to %s cannot be re-imported through %s: %s' % (name, (rp, rl, tu), route, str(e)[:200]),
+                                    {'entry': entry, 'isotherm': name, 'kind': 'representation', 'rp': rp and list(rp), 'rl': rl and list(rl), 'tu': tu, 'route': route})
+                        continue
                 oc, var = run_entry(entry, var_iso)
                 n_eval += 1
-                note(entry, 'representation', oc)
-                info = {'entry': entry, 'isotherm': name, 'kind': 'representation', 'rp': list(rp), 'rl': list(rl), 'tu': tu}
+                note(entry, 'representation' if route is None else 'converted+re-imported', oc)
+                info = {'entry': entry, 'isotherm': name, 'kind': 'representation', 'rp': rp and list(rp), 'rl': rl and list(rl), 'tu': tu}
+                if route is not None:
+                    info['route'] = route
+                    rp, rl = rp or ('stored', None), rl or ('stored', None)
+                    tu = '%s, then re-imported through %s' % (tu, route)
                 if oc != 'Ok':
                     rep.failure(classify(entry, 'representation', info), '%s(%s) works in the stored representation but raises %s (%s) after conversion to %s' % (
                         entry, name, oc, var, (rp, rl, tu)), info)
@@ -587,12 +630,29 @@ def metamorphic(rep, tier, seed, isos):
             trials.append(('representation', [rp] * 3, [rl] * 3, [tu] * 3))
         trials.append(('mixed', [('absolute', 'bar'), ('absolute', 'kPa'), ('absolute', 'bar')], [('molar', 'mmol')] * 3, ['K'] * 3))
         trials.append(('mixed-loading-units', [('absolute', 'bar')] * 3, [('molar', 'mmol'), ('molar', 'mol'), ('molar', 'cm3(STP)')], ['K', '°C', 'K']))
-        for kind, rps, rls, tus in trials:
+        trials = [t + (None,) for t in trials]
+        # converted to degC (in representations in which the routine is sound), then exported and re-imported, then analysed; one, two or all three of the set
+        for route in ROUTES:
+            who = rnd_rt.choice([(0, 1, 2), (0, 1, 2), (rnd_rt.randrange(3),), tuple(sorted(rnd_rt.sample(range(3), 2)))])
+            pu = rnd_rt.choice(['bar', 'kPa', 'torr', 'Pa'])
+            lrep = rnd_rt.choice([('molar', 'mmol'), ('molar', 'mol'), ('mass', 'mg'), ('mass', 'g')])
+            trials.append(('representation', [('absolute', pu)] * 3, [lrep] * 3, ['°C' if k in who else 'K' for k in range(3)], (route, who)))
+        for kind, rps, rls, tus, rt in trials:
             vs = [convert(i, rp, rl, tu) for i, rp, rl, tu in zip(iset, rps, rls, tus)]
+            if rt is not None:
+                try:
+                    vs = [reimport(v, rt[0]) if k in rt[1] else v for k, v in enumerate(vs)]
+                except Exception as e:  # noqa
+                    rep.failure('C15:unclassified:isosteric_enthalpy:re-import-raises', 'isosteric set converted to %s / %s / %s cannot be re-imported through %s: %s' % (
+                        rps[0], rls[0], tus, rt[0], str(e)[:200]), {'entry': 'isosteric_enthalpy', 'isotherm': sname, 'kind': kind, 'route': rt[0]})
+                    continue
             oc, var = run_entry('isosteric_enthalpy', vs)
             n_eval += 1
-            note('isosteric_enthalpy', kind, oc)
+            note('isosteric_enthalpy', kind if rt is None else 'converted+re-imported', oc)
             info = {'entry': 'isosteric_enthalpy', 'isotherm': sname, 'kind': kind, 'rps': [list(r) for r in rps], 'rls': [list(r) for r in rls], 'tus': tus}
+            if rt is not None:
+                info['route'], info['reimported'] = rt[0], list(rt[1])
+                tus = '%s, isotherms %s then re-imported through %s' % (tus, list(rt[1]), rt[0])
             if oc != 'Ok':
                 # the routine refuses isotherms in different loading bases (ParameterError): refusal is not a wrong result
                 if oc == 'ParameterError':
@@ -603,8 +663,8 @@ def metamorphic(rep, tier, seed, isos):
             keep = lambda r: {k: v for k, v in r.items() if k != 'loading'}
             d = differ('isosteric_enthalpy', keep(base), keep(var))
             if d:
-                rep.failure(classify('isosteric_enthalpy', kind, info), 'isosteric_enthalpy(%s) changes after conversion (%s) pressure %s loading %s: %s' % (
-                    sname, kind, rps, rls, d[:2]), info)
+                rep.failure(classify('isosteric_enthalpy', kind, info), 'isosteric_enthalpy(%s) changes after conversion (%s) pressure %s loading %s temperature units %s: %s' % (
+                    sname, kind, rps, rls, tus, d[:2]), info)
             else:
                 nontrivial.add(('isosteric_enthalpy', sname, kind, tuple(rps), tuple(rls)))
         # the same three OBJECTS analysed (pressure_at builds their interpolators), converted in place, analysed again; representations in which the
@@ -739,7 +799,8 @@ def explore(rep, tier, seed):
     rep.cov['distinct_nontrivial'] = len(nontrivial)
     rep.cov['rule'] = ('metamorphic: every entry point (area_BET, area_langmuir, t_plot, alpha_s, dr_plot, da_plot, psd_mesoporous x 3 models, psd_microporous x 4 '
                        'models, psd_dft, initial_henry_slope, initial_henry_virial, isosteric_enthalpy) x 5 shipped N2 isotherms + 3 synthetic (BET, Langmuir, DA) x '
-                       'random (pressure representation of 10, non-fractional loading representation of 25, temperature unit) + 4 fixed variants x scale factors '
+                       'random (pressure representation of 10, non-fractional loading representation of 25, temperature unit) + 4 fixed variants + 3 variants converted to degC and THEN exported and '
+                       're-imported (to_dict -> constructor, to_json -> from_json, PointIsotherm.from_isotherm; also 1-3 members of the isosteric set) x scale factors '
                        '0.5, 3, 1e-6, 1e6 (thorough: also 1e-4, 1e-3, 1e3); the SAME object analysed, converted in place and analysed again (every entry point; '
                        'alpha_s sample and reference objects; the isosteric set); alpha_s with sample / reference converted; isosteric sets converted jointly and mixed; adsorbate kinds '
                        '(backend nitrogen 77 K; user-defined stored-only 90 K; backend + different stored values 77 K; backend failing at 150 K + stored values) x 14 entry points (alpha_s sample side and the columns psd_dft acquires included) on the '
